@@ -532,7 +532,21 @@ class Engine(object):
         for n, ty in k.params:
             if n in given:
                 out[n] = self.coerce(ex, given[n], ty, path, '%s(%s)' % (k.qualname, n))
-            elif ty.startswith('opt:'):
+                continue
+            # an omitted argument takes the default written in the callee's SOURCE (not what the sidecar believes)
+            dflt = self.source_default(k, n)
+            if dflt is not None and dflt[0] == 'const' and dflt[1] is not None:
+                v_ = dflt[1]
+                if isinstance(v_, bool) and ty == 'bool':
+                    out[n] = SV('bool', z3.BoolVal(v_))
+                    continue
+                if isinstance(v_, int) and not isinstance(v_, bool) and ty == 'int':
+                    out[n] = SV('int', z3.IntVal(v_))
+                    continue
+                raise Unsupported('default %r of %s.%s does not fit the declared type %s' % (v_, k.qualname, n, ty))
+            if dflt is not None and dflt[0] == 'other':
+                raise Unsupported('default of %s.%s is not a constant' % (k.qualname, n))
+            if ty.startswith('opt:'):
                 out[n] = SV('opt', None, (z3.BoolVal(True), self.default_of(ex, ty[4:], path)))
             elif ty == 'Hopt':
                 out[n] = SV('H', hp.NONE_H)
@@ -541,6 +555,24 @@ class Engine(object):
             else:
                 raise Unsupported('missing argument %s of %s' % (n, k.qualname))
         return out
+
+    def source_default(self, k, name):
+        """('const', value) | ('other',) | None (no default / not found) for parameter `name` of the callee's source"""
+        try:
+            fnode = self.src.find(self.files[k.qualname], k.hints.get('path', k.qualname))
+        except Exception:
+            return None
+        a = fnode.args
+        pos = a.args
+        defs = a.defaults
+        off = len(pos) - len(defs)
+        for i, arg in enumerate(pos):
+            if arg.arg == name and i >= off:
+                d = defs[i - off]
+                if isinstance(d, ast.Constant):
+                    return ('const', d.value)
+                return ('other',)
+        return None
 
     def call_contract(self, ex, q, args, kwargs, path, e):
         """replace a call by the callee's contract"""
@@ -984,6 +1016,9 @@ class Extension(object):
 
     def assign_subscript(self, E, ex, base, idx, v, path, st):
         return False
+
+    def binop(self, E, ex, op, a, b, path, node):
+        return None
 
     def coerce_return(self, E, ex, val, ret, path):
         return None
